@@ -1,3 +1,4 @@
+#include <limits>
 #include <cstring>
 
 #include <occa/types/bits.hpp>
@@ -652,10 +653,28 @@ namespace occa {
     return primitive();
   }
 
+  // The most negative value of the result type divided by -1 is not representable:
+  //   the hardware division traps just like a division by zero
+  static bool divisionOverflows(const int retType,
+                                const primitive &a,
+                                const primitive &b) {
+    if (retType == primitiveType::int32_) {
+      return ((a.to<int32_t>() == std::numeric_limits<int32_t>::min())
+              && (b.to<int32_t>() == -1));
+    }
+    if (retType == primitiveType::int64_) {
+      return ((a.to<int64_t>() == std::numeric_limits<int64_t>::min())
+              && (b.to<int64_t>() == -1));
+    }
+    return false;
+  }
+
   primitive primitive::div(const primitive &a, const primitive &b) {
     const int retType = (a.type > b.type) ? a.type : b.type;
     OCCA_ERROR("Cannot apply operator / with a zero integer divisor",
                (retType & primitiveType::isFloat) || b.to<uint64_t>());
+    OCCA_ERROR("Cannot apply operator / : signed integer overflow",
+               !divisionOverflows(retType, a, b));
     switch(retType) {
       case primitiveType::bool_   : return primitive(a.to<bool>()     / b.to<bool>());
       case primitiveType::int8_   : return primitive(a.to<int8_t>()   / b.to<int8_t>());
@@ -677,6 +696,8 @@ namespace occa {
     const int retType = (a.type > b.type) ? a.type : b.type;
     OCCA_ERROR("Cannot apply operator % with a zero integer divisor",
                (retType & primitiveType::isFloat) || b.to<uint64_t>());
+    OCCA_ERROR("Cannot apply operator % : signed integer overflow",
+               !divisionOverflows(retType, a, b));
     switch(retType) {
       case primitiveType::bool_   : return primitive(a.to<bool>()     % b.to<bool>());
       case primitiveType::int8_   : return primitive(a.to<int8_t>()   % b.to<int8_t>());
